@@ -42,3 +42,33 @@ WRAP Qs* w_qs_copy(const Qs* s) { try { return new Qs(*s); } catch (...) { retur
 WRAP Qs* w_qs_move(Qs* s) { try { return new Qs(std::move(*s)); } catch (...) { return nullptr; } }
 WRAP int w_qs_assign(Qs* d, const Qs* s) { try { *d = *s; return 0; } catch (...) { return 1; } }
 WRAP int w_qs_move_assign(Qs* d, Qs* s) { try { *d = std::move(*s); return 0; } catch (...) { return 1; } }
+// classic quantiles: state injection (C07 iterator clause): n items laid out as the documented structure for (k, n):
+// base buffer holds n mod 2k items, level h holds k items iff bit h of n/(2k) is set
+WRAP Qs* w_qs_inject(uint16_t k, uint64_t n, const int32_t* vals) {
+  try {
+    Qs* s = new Qs(k);
+    uint32_t bb = (uint32_t)(n % (2ULL * k)); uint64_t bits = n / (2ULL * k); uint32_t vi = 0;
+    s->base_buffer_.clear(); for (uint32_t i = 0; i < bb; i++) s->base_buffer_.push_back(vals[vi++]);
+    s->levels_.clear();
+    for (uint32_t h = 0; (bits >> h) != 0; h++) { Qs::Level lvl; if ((bits >> h) & 1) for (uint32_t i = 0; i < k; i++) lvl.push_back(vals[vi++]); s->levels_.push_back(lvl); }
+    s->n_ = n; s->bit_pattern_ = bits;
+    if (n > 0) { s->min_item_.emplace(vals[0]); s->max_item_.emplace(vals[0]); }
+    return s;
+  } catch (...) { return nullptr; }
+}
+// kll: state injection (C07 iterator clause): level populations pops[0..nl-1] (sum <= k), items packed at the top of the k-item buffer
+WRAP K* w_kll_inject(uint16_t k, const uint32_t* pops, uint8_t nl, const int32_t* vals) {
+  try {
+    K* s = new K(k);
+    uint32_t total = 0; for (uint8_t h = 0; h < nl; h++) total += pops[h];
+    if (total > s->items_size_) { delete s; return nullptr; }
+    s->levels_.resize(nl + 1); s->num_levels_ = nl;
+    uint32_t pos = s->items_size_ - total; uint64_t n = 0;
+    for (uint8_t h = 0; h < nl; h++) { s->levels_[h] = pos; pos += pops[h]; n += (uint64_t)pops[h] << h; }
+    s->levels_[nl] = pos;
+    for (uint32_t i = 0; i < total; i++) s->items_[s->items_size_ - total + i] = vals[i];
+    s->n_ = n;
+    if (total > 0) { s->min_item_.emplace(vals[0]); s->max_item_.emplace(vals[0]); }
+    return s;
+  } catch (...) { return nullptr; }
+}
